@@ -314,18 +314,31 @@ func astroCounts(x *cx) {
 	}
 }
 
-// astroSample: RSample(r, n, k) for n up to MaxInt: post-conditions, and a coarse uniformity test:
-// of 4000 seeded draws the values fall into the upper half of [0, n) with probability 1/2 each;
-// a share below 40% or above 60% is more than 12 standard deviations away (p << 1e-9).
+// astroSample: RSample(r, n, k) for n up to MaxInt: post-conditions; a coarse uniformity test (the
+// share of values in the upper half of [0, n): 50% +- 0.25% at 40000 draws, judged at 40%/60%, more
+// than 40 standard deviations off); and LOW-BIT statistics of one value per draw (the first of the
+// shuffled result, so the values are independent): chi-square with the p = 1e-9 critical value of
+// the value mod 2, 3, 4, 8, 16 and 256. For n >= 2^55 only values above 2^54 enter the low-bit
+// tables (there a position computed in float64 would lose its low bits).
 func astroSample(x *cx, rnd *vkit.Rand) {
-	const draws = 4000
-	for _, n := range []int{1 << 40, 1 << 53, 1 << 56, 1 << 58, 1 << 62, math.MaxInt - 1, math.MaxInt} {
+	const draws = 40000
+	mods := []int{2, 3, 4, 8, 16, 256}
+	for _, n := range []int{1 << 40, 1 << 53, 1<<54 + 3, 1 << 55, 1 << 56, 1 << 58, 1 << 62, math.MaxInt - 1, math.MaxInt} {
 		for _, k := range []int{1, 3} {
 			if x.failed {
 				return
 			}
 			r := rand.New(rand.NewSource(int64(rnd.Uint64() >> 1)))
 			upper, total := 0, 0
+			threshold := 0
+			if n >= 1<<55 {
+				threshold = 1 << 54
+			}
+			tables := make([][]int, len(mods))
+			for i, m := range mods {
+				tables[i] = make([]int, m)
+			}
+			used := 0
 			x.calls["xrand.RSample"] += draws
 			for d := 0; d < draws; d++ {
 				var got []int
@@ -333,20 +346,29 @@ func astroSample(x *cx, rnd *vkit.Rand) {
 					x.fail("sample-huge-n", fmt.Sprintf("RSample(n = %d, k = %d) panicked: %s", n, k, p.Msg), map[string]any{"n": n, "k": k})
 					return
 				}
-				if len(got) != k {
-					x.fail("sample-huge-n", fmt.Sprintf("RSample(n = %d, k = %d) returned %d items", n, k, len(got)), map[string]any{"n": n, "k": k})
-					return
-				}
-				seen := map[int]bool{}
-				for _, v := range got {
-					if v < 0 || v >= n || seen[v] {
-						x.fail("sample-huge-n", fmt.Sprintf("RSample(n = %d, k = %d) = %v: not k distinct ints of [0, n)", n, k, got), map[string]any{"n": n, "k": k})
-						return
+				bad := len(got) != k
+				for i, v := range got {
+					if v < 0 || v >= n {
+						bad = true
 					}
-					seen[v] = true
+					for _, w := range got[:i] {
+						if w == v {
+							bad = true
+						}
+					}
 					total++
 					if v >= n/2 {
 						upper++
+					}
+				}
+				if bad {
+					x.fail("sample-huge-n", fmt.Sprintf("RSample(n = %d, k = %d) = %v: not k distinct ints of [0, n)", n, k, got), map[string]any{"n": n, "k": k})
+					return
+				}
+				if v := got[0]; v > threshold {
+					used++
+					for i, m := range mods {
+						tables[i][v%m]++
 					}
 				}
 			}
@@ -355,9 +377,30 @@ func astroSample(x *cx, rnd *vkit.Rand) {
 			x.observe("astronomic", "RSample tables with n >= 2^40")
 			x.r.Max("astronomic RSample: |share of draws in the upper half of [0,n) - 50%|, per mille", fmt.Sprintf("n = %d", n), int(math.Abs(share-0.5)*1000))
 			if share < 0.40 || share > 0.60 {
-				x.fail("sample-huge-n", fmt.Sprintf("RSample(n = %d, k = %d): of %d seeded draws (%d values) %.1f%% lie in the upper half of [0, n); picked uniformly it would be 50%% +- 0.8%% (this is > 12 standard deviations off)", n, k, draws, total, 100*share),
+				x.fail("sample-huge-n", fmt.Sprintf("RSample(n = %d, k = %d): of %d seeded draws (%d values) %.1f%% lie in the upper half of [0, n); picked uniformly it would be 50%% +- 0.3%%", n, k, draws, total, 100*share),
 					map[string]any{"n": n, "k": k, "draws": draws, "share_upper_half": share})
 				return
+			}
+			// with the share above judged fine, at least ~40% of the draws are above the threshold
+			if used < draws/4 {
+				x.r.Inconclusive(fmt.Sprintf("astronomic RSample(n = %d, k = %d): only %d of %d draws above 2^54", n, k, used, draws))
+				continue
+			}
+			for i, m := range mods {
+				chi := chiSquare(tables[i], used)
+				crit := chiCritical(m - 1)
+				x.eval("")
+				x.observe("astronomic", "RSample low-bit tables")
+				x.r.Max("chi-square / critical value, per mille", fmt.Sprintf("huge-n sample positions mod %d", m), int(1000*chi/crit))
+				if chi > crit {
+					show := tables[i]
+					if len(show) > 16 {
+						show = show[:16]
+					}
+					x.fail("sample-low-bits", fmt.Sprintf("RSample(n = %d, k = %d): over %d seeded draws, the sampled positions above %d taken mod %d have counts %v (first cells): chi-square %.1f > %.1f (critical value for p = 1e-9): positions are not equally likely in their low bits",
+						n, k, used, threshold, m, show, chi, crit), map[string]any{"n": n, "k": k, "mod": m, "counts": tables[i], "chi_square": chi, "critical": crit})
+					return
+				}
 			}
 		}
 	}
